@@ -51,6 +51,7 @@ func TestZZVerifDumpTables(t *testing.T) {
 		Type int    ` + "`json:\"type\"`" + `
 	}
 	d := map[string]interface{}{}
+//SECTION byteParsers
 	var bp []string
 	for _, f := range byteParsers {
 		n := runtime.FuncForPC(reflect.ValueOf(f).Pointer()).Name()
@@ -60,6 +61,7 @@ func TestZZVerifDumpTables(t *testing.T) {
 		bp = append(bp, n)
 	}
 	d["byteParsers"] = bp
+//END
 	toInts := func(b []byte) []int {
 		r := make([]int, len(b))
 		for i, x := range b {
@@ -67,24 +69,40 @@ func TestZZVerifDumpTables(t *testing.T) {
 		}
 		return r
 	}
+	_ = toInts
+//SECTION wordAcceptTable
 	d["wordAcceptTable"] = toInts(wordAcceptTable)
+//END
+//SECTION varAcceptTable
 	d["varAcceptTable"] = toInts(varAcceptTable)
+//END
+//SECTION gsHexDecodeMap
 	d["gsHexDecodeMap"] = gsHexDecodeMap
+//END
+//SECTION blackTags
 	d["blackTags"] = blackTags
-	var be, bl []nt
+//END
+//SECTION blackEvents
+	var be []nt
 	for _, e := range blackEvents {
 		be = append(be, nt{e.name, e.attributeType})
 	}
+	d["blackEvents"] = be
+//END
+//SECTION blacks
+	var bl []nt
 	for _, e := range blacks {
 		bl = append(bl, nt{e.name, e.attributeType})
 	}
-	d["blackEvents"] = be
 	d["blacks"] = bl
+//END
+//SECTION sqlKeywords
 	kw := map[string]int{}
 	for k, v := range sqlKeywords {
 		kw[k] = int(v)
 	}
 	d["sqlKeywords"] = kw
+//END
 	b, err := json.Marshal(d)
 	if err != nil {
 		t.Fatal(err)
@@ -125,14 +143,40 @@ func runOverlayTest(repo string, files map[string]string, run string, env []stri
 	return string(out), err
 }
 
-func loadTables(repo string) (*Tables, error) {
+// dumpSource keeps the sections of the dump test whose package-level table still exists in the
+// tree under verification (a change may remove or rename a table; the checks that depend on it
+// then report that, the others still run).
+func dumpSource(has func(string) bool) string {
+	var out []string
+	skip := false
+	for _, l := range strings.Split(dumpTestSrc, "\n") {
+		if strings.HasPrefix(l, "//SECTION ") {
+			skip = !has(strings.TrimSpace(strings.TrimPrefix(l, "//SECTION ")))
+			continue
+		}
+		if l == "//END" {
+			skip = false
+			continue
+		}
+		if !skip {
+			out = append(out, l)
+		}
+	}
+	src := strings.Join(out, "\n")
+	if !strings.Contains(src, "runtime.FuncForPC") {
+		src = strings.Replace(src, "\t\"reflect\"\n\t\"runtime\"\n\t\"strings\"\n", "", 1)
+	}
+	return src
+}
+
+func loadTables(repo string, has func(string) bool) (*Tables, error) {
 	tmp, err := os.MkdirTemp("", "vf-tab-")
 	if err != nil {
 		return nil, err
 	}
 	defer os.RemoveAll(tmp)
 	outp := filepath.Join(tmp, "tables.json")
-	out, err := runOverlayTest(repo, map[string]string{"zz_verif_dump_test.go": dumpTestSrc}, "^TestZZVerifDumpTables$", []string{"VERIF_DUMP_OUT=" + outp}, 120)
+	out, err := runOverlayTest(repo, map[string]string{"zz_verif_dump_test.go": dumpSource(has)}, "^TestZZVerifDumpTables$", []string{"VERIF_DUMP_OUT=" + outp}, 120)
 	if err != nil {
 		return nil, fmt.Errorf("table dump failed: %v\n%s", err, out)
 	}
